@@ -640,14 +640,14 @@ def run(c):
     c.prove()
     tmp = tempfile.mkdtemp(prefix="c11_")
     try:
-        stream_roundtrip(c, c.n(120, 1500), tmp)
-        stream_reader(c, c.n(160, 2000), tmp)
-        stream_resize(c, c.n(100, 1200), tmp)
-        M.stream_rewrite(c, c.n(40, 500), tmp, gen_store)
-        M.stream_csv(c, c.n(80, 1000), tmp)
-        M.stream_netcdf(c, c.n(40, 400), tmp)
-        M.stream_param(c, c.n(80, 1000), tmp)
-        M.stream_ids(c, c.n(80, 1000), tmp)
+        stream_roundtrip(c, c.n(120, 4000), tmp)
+        stream_reader(c, c.n(160, 5000), tmp)
+        stream_resize(c, c.n(100, 3000), tmp)
+        M.stream_rewrite(c, c.n(40, 1200), tmp, gen_store)
+        M.stream_csv(c, c.n(80, 3000), tmp)
+        M.stream_netcdf(c, c.n(40, 1000), tmp)
+        M.stream_param(c, c.n(80, 3000), tmp)
+        M.stream_ids(c, c.n(80, 3000), tmp)
         M.corpus(c, tmp)
     finally:
         shutil.rmtree(tmp, ignore_errors=True)
